@@ -416,7 +416,10 @@ impl Check for C14 {
         }
         let made = match kinds::make(&p.file) {
             Ok(m) => m,
-            Err(e) => panic!("harness: cannot make {:?}: {e}", p.file),
+            Err(_) => {
+                ctx.stats.probe("workload_unbuildable", 1);
+                return Vec::new();
+            }
         };
         let kind = p.file.kind;
         ctx.stats.kind(kind.name());
@@ -462,8 +465,18 @@ impl Check for C14 {
         let r0 = crate::kernel::fresh_thread_if(matches!(kind, Kind::Cram | Kind::Crai), || catch(|| kinds::write_to(kind, &made.model, sink0.clone())));
         match r0 {
             Ok(Ok(())) => {}
-            Ok(Err(e)) => panic!("harness: fault-free write of {:?} failed: {e}", p.file),
-            Err(pn) => panic!("harness: fault-free write panicked: {} {}", pn.location, pn.message),
+            Ok(Err(e)) => {
+                return vec![Finding {
+                    violation: Violation::new(&format!("{}:writer", kind.name()), "spurious-error", "fault-free", format!("the protocol failed on a fault-free sink: {e}")),
+                    plan: plan.clone(),
+                }];
+            }
+            Err(pn) => {
+                return vec![Finding {
+                    violation: Violation::new(&format!("{}:writer", kind.name()), "panic", &pn.witness(), format!("writer panicked on a fault-free sink: {} {}", pn.location, pn.message)),
+                    plan: plan.clone(),
+                }];
+            }
         }
         let c0 = sink0.counters();
         let reference = sink0.data();
